@@ -52,6 +52,18 @@ def thorough_extras(prop: str, rep: Report) -> None:
         print(f"SELFTEST-WARN property={prop} {st} (checker self-test variants disagree on this tree; informational)")
 
 
+def resolver_precondition(program, rep: Report) -> None:
+    """Every check resolves `self.m(...)` to the method `m` of the class hierarchy. A store that rebinds a method name on
+    the instance or the class breaks that resolution, so a check that analysed the shadowed method is no longer entitled to
+    a verdict: it fails closed (UNDECIDED) unless one of its own rules already reported the store as a violation."""
+    from sa.common import method_rebinds, where
+
+    for site_fn, node, c, attr, m, is_cache in method_rebinds(program):
+        if m.fq in rep.functions or site_fn.fq in rep.functions:
+            rep.undecide("engine", f"{where(site_fn, node)}: `{attr}` of {c.fq} is rebound ({' '.join(__import__('ast').unparse(node).split())[:80]}): "
+                                   f"calls resolved to {m.fq} may reach another callable")
+
+
 def main(argv=None) -> int:
     ap = argparse.ArgumentParser()
     ap.add_argument("prop")
@@ -72,6 +84,7 @@ def main(argv=None) -> int:
             flow.Interp.STEP_LIMIT = 4000000
             flow.Client.max_inline_depth = max(flow.Client.max_inline_depth, 6)
         mod.run(program, rep, args.tier)
+        resolver_precondition(program, rep)
         if args.tier == "thorough":
             if hasattr(mod, "run_thorough"):
                 mod.run_thorough(program, rep)
